@@ -11,9 +11,9 @@ ALL = ["rel", "san", "raidprop", "oracle", "shim"]
 
 
 def main():
-    extra = [v for v in ("vectool",  "loader", "loader_san", "ring", "filter")
+    extra = [v for v in ("vectool",  "loader", "loader_san", "ring", "filter", "content_fuzz")
              if os.path.exists(os.path.join(VERIF, "native", {"shim": "../shim/verifshim.c", "vectool": "vectool.c", "loader": "loader_harness.c",
-                                                                "loader_san": "loader_harness.c", "ring": "ring_harness.c", "filter": "filter_harness.c"}[v]))]
+                                                                "loader_san": "loader_harness.c", "ring": "ring_harness.c", "filter": "filter_harness.c", "content_fuzz": "content_fuzz.c"}[v]))]
     out = build.build(ALL + extra)
     for k, v in out.items():
         print("built", k, v)
